@@ -88,6 +88,21 @@ EXPLANATION = ("Lean theorems about the generated calculateDerived and the hand 
                "against constants.calculateDerived(path) on temporary YAML files; clauses are also evaluated directly "
                "on the implementation's output (predicates)")
 PARALLEL = True
+LEVEL_TEXT = (
+    "Lean 4 theorems (exact real arithmetic) about a Lean definition GENERATED from constants.calculateDerived by "
+    "harness/translate.py on every run, and about a hand-written model of _loadConfig/_getAllKeys/_nestedDictUpdate "
+    "(any leaf type). The generated text is rebuilt and every theorem re-checked on every run (a changed formula makes "
+    "the corresponding theorem fail to build); the hand model is tied to /repo by a differential check on random "
+    "partial YAML files loaded through the real calculateDerived(path). Proved in full, for all configurations: a "
+    "custom file overrides exactly the entries it names; applying it twice changes nothing; the reported set is "
+    "keys(custom) minus keys(default); unknown keys at any depth change neither a constant nor the exception, and a "
+    "partial file never makes the load raise; nineteen defining relations of the derived constants (V, A, mass, "
+    "mass_solute, mass_water, T_eq_l, depression, cp_solution, hl, alpha, beta_solution, lambda_solution, copied "
+    "values, presence of the VISF / spatial entries); for well-typed configurations an exception is raised iff the "
+    "enumerations are outside the explicit decision table, and then NotImplementedError; Snowing.run's dispatch takes "
+    "a branch on every successful load. Hypotheses, not claims: distinct keys per mapping; the edge case 'valid key "
+    "nested in the wrong place' (documented in the code) is excluded by hypothesis in layering_exact / "
+    "partial_file_loads.")
 
 
 def regenerate():
